@@ -12,7 +12,8 @@
      winner_b              which goroutine's result the final select takes: any;
      cut_a, cut_b          after how many outer-loop iterations the timeout stops matchA / matchB: any. *)
 From Coq Require Import List ZArith NArith Bool Permutation Sorting.Sorted.
-From Herc Require Import Plumbing.Renames Plumbing.RenamesProofs Plumbing.RenamesChan Plumbing.RenamesFast.
+From Herc Require Import Plumbing.Renames Plumbing.RenamesProofs Plumbing.RenamesChan Plumbing.RenamesFast
+  Plumbing.RenamesFastComplete.
 Import ListNotations.
 
 (* ---- the output is a re-pairing of the input ---- *)
@@ -160,6 +161,16 @@ Theorem C13_repairing_fast_oracle_sound : forall inp out, repairing_fast_b inp o
                Permutation (tos rest) (adds inp) /\ Forall (fun c => nonempty c = true) rest.
 Proof. exact repairing_fast_sound. Qed.
 Print Assumptions C13_repairing_fast_oracle_sound.
+
+(* ... which rejects nothing but violations when the output begins with the modifications in input order (the order
+   used for sorting is a total order, so the sorted permutation of a list is unique) *)
+Theorem C13_repairing_fast_oracle_complete : forall inp out,
+  firstn (length (mods inp)) out = mods inp ->
+  (exists rest, Permutation out (mods inp ++ rest) /\ Permutation (froms rest) (dels inp) /\
+                Permutation (tos rest) (adds inp) /\ Forall (fun c => nonempty c = true) rest) ->
+  repairing_fast_b inp out = true.
+Proof. exact repairing_fast_complete. Qed.
+Print Assumptions C13_repairing_fast_oracle_complete.
 
 (* ... and the count clause evaluated hash by hash on the changes that carry the hash on some side *)
 Theorem C13_exact_by_buckets_sound : forall inp out,
